@@ -43,6 +43,7 @@ CODE_COMPOSE = ("Crng.Tie.CodeCompose", ["dispatch_dest_sends", "rejected_no_des
                                            "sendAllRoute_dispatch", "sendFirstRoute_dispatch", "destination_match_spec", "baseRoute_match_spec"])
 CODE_READDEST = ("Crng.Tie.CodeReadDest", ["readDestination_eq", "loop_eq", "defaults", "option_step", "unknown_option_rejected", "whileP_congr", "optLoop_pairs"])
 CODE_GUARDS = ("Crng.Tie.CodeGuards", ["destination_guards_iff", "grafanaNet_guards_iff"])
+CODE_CFG = ("Crng.Tie.CodeCfg", ["initAggregation_eq", "initRewrite_eq", "initBlacklist_eq", "agg_sub_wins"])
 CODE_AGG = ("Crng.Tie.CodeAgg", ["addMaybe_eq", "withheld_consumed", "no_dropraw_never_withholds"])
 
 TRUSTED_BASE = [
